@@ -1,6 +1,7 @@
 package interp
 
 import (
+	"bufio"
 	"bytes"
 	"encoding/json"
 	"errors"
@@ -129,8 +130,43 @@ var ffiFuncs = map[string]reflect.Value{
 	"path/filepath.Abs":   rv(filepath.Abs),
 	"path/filepath.Ext":   rv(filepath.Ext),
 
-	"encoding/json.Marshal":   rv(json.Marshal),
-	"encoding/json.Unmarshal": rv(json.Unmarshal),
+	"encoding/json.Marshal":       rv(json.Marshal),
+	"encoding/json.Unmarshal":     rv(json.Unmarshal),
+	"encoding/json.NewDecoder":    rv(json.NewDecoder),
+	"encoding/json.NewEncoder":    rv(json.NewEncoder),
+	"encoding/json.Valid":         rv(json.Valid),
+	"encoding/json.MarshalIndent": rv(json.MarshalIndent),
+
+	"strings.NewReader":     rv(strings.NewReader),
+	"strings.IndexRune":     rv(strings.IndexRune),
+	"strings.IndexByte":     rv(strings.IndexByte),
+	"strings.IndexAny":      rv(strings.IndexAny),
+	"strings.ContainsAny":   rv(strings.ContainsAny),
+	"strings.SplitN":        rv(strings.SplitN),
+	"strings.Cut":           rv(strings.Cut),
+	"strings.ToValidUTF8":   rv(strings.ToValidUTF8),
+	"bytes.NewBufferString": rv(bytes.NewBufferString),
+	"bytes.Equal":           rv(bytes.Equal),
+	"bytes.Contains":        rv(bytes.Contains),
+	"bytes.TrimSpace":       rv(bytes.TrimSpace),
+	"bytes.HasPrefix":       rv(bytes.HasPrefix),
+	"sort.Float64s":         rv(sort.Float64s),
+	"sort.SearchInts":       rv(sort.SearchInts),
+	"strconv.FormatBool":    rv(strconv.FormatBool),
+	"strconv.ParseBool":     rv(strconv.ParseBool),
+	"strconv.ParseUint":     rv(strconv.ParseUint),
+	"strconv.Unquote":       rv(strconv.Unquote),
+	"strconv.AppendInt":     rv(strconv.AppendInt),
+	"strconv.QuoteToASCII":  rv(strconv.QuoteToASCII),
+	"errors.As":             rv(errors.As),
+	"errors.Unwrap":         rv(errors.Unwrap),
+	"io.NopCloser":          rv(io.NopCloser),
+	"io.LimitReader":        rv(io.LimitReader),
+	"io.MultiReader":        rv(io.MultiReader),
+	"io.Copy":               rv(io.Copy),
+	"bufio.NewReader":       rv(bufio.NewReader),
+	"bufio.NewScanner":      rv(bufio.NewScanner),
+	"bufio.NewWriter":       rv(bufio.NewWriter),
 
 	"time.Now":   rv(func() time.Time { return time.Unix(1700000000, 0) }),
 	"time.Sleep": rv(func(time.Duration) {}),
